@@ -84,5 +84,18 @@ CHECKS["C04"] = dict(engine="tensorrepr", design_ref="DESIGN.md §4 C04",
   text="TLC enumerates every logical tensor of 10 element classes x n 0..9 x 3 shapes x 5 bit-pattern schemes, every applicable representation (array native/bits/sbits/ctor/list, packed, proto x storage field, external x offset kind x length, lazy x inner, torch) and 0..2 tofile() calls into 6 destination kinds; each printed state is built with the public API for every element type of the class and dtype, shape, size, nbytes, tobytes(), numpy() bit patterns, tofile() content and position, serialize_tensor() are compared with the values TLC derived; the same records are compared with the ONNX reference encoder/decoder; the element type tables are checked for mutual consistency in TLC and compared with onnx_ir._enums.",
   note="quick: MaxWrites=1, ~154k states, all executed (~407k tests); thorough: MaxWrites=2; bit patterns only (no real-number semantics); f32 signalling NaN, trailing-NUL strings, non-seekable destinations out of scope")
 
+ENGINES.append({"name": "serdeir", "path": "specs/serde/SerdeIR.tla", "serves_properties": ["C03"],
+  "kind_free_text": "abstract proto Ser, scoped deserializer Deser, Serializable precondition and object-graph isomorphism Iso over IRClone's state; SerdeIRMC.tla (seed models x edit histories, theorems as invariants), SerdeIRTrace.tla (judges observed (IR, deserialized IR) pairs); harness/vfh/serdeir.py"})
+CHECKS["C03"] = dict(engine="serdeir", design_ref="DESIGN.md §4 C02/C03/C17, App. A.6",
+  technique="TLC model checking of SerdeIRMC.tla (Serializable => Iso(Deser(Ser)), effect = tensor names only, Ser independent of its effect) + replay of every emitted state into real models (deep snapshot / serialize twice / proto vs Ser / round trip) + TLC evaluation of Serializable and Iso on the observed object graphs",
+  text="the specification defines the abstract proto the serializer must write (Ser), the scoped deserializer (Deser), the precondition Serializable and the isomorphism Iso, and TLC proves Serializable => Iso(Deser(Ser)) and 'serialization changes only initializer tensor names' on every reachable state of five seed models under edit histories; every emitted state is rebuilt with real objects (rotating tensor implementations, IR versions 8-13, functions, device configurations), serialized twice (byte-equal, no side effect beyond tensor-name alignment, also when to_proto raises), compared with Ser, deserialized, and TLC evaluates Serializable and Iso on the observed (original, deserialized) object graphs; leaf payloads are compared by the harness.",
+  note="Serializable delimits the quantifier (an outer value listed as a subgraph output is outside it: ONNX-invalid); small scope: 3 graphs, nesting <=3, <=2-3 edits after 5 seed models; quick tier executes a seeded third of the states")
+ENGINES.append({"name": "atomicsave", "path": "specs/extdata/AtomicSave.tla", "serves_properties": ["C08"],
+ "kind_free_text": "TLA+ model of the file-system effects of the external-data save (temp dir/file, chunk writes, serial and parallel writer, copymode, replace, finally clean-up, release/invalidate, sharded pre-check) with a fail twin per effect and crash anywhere; AtomicSaveMC.tla (+_f2.cfg), AtomicSaveTrace.tla; harness/vfh/faultfs.py (strace fault/kill injection, module-global proxies), checks/c08.py"})
+CHECKS["C08"] = dict(engine="atomicsave", design_ref="DESIGN.md §4 C08, A.8, B.4",
+  technique="TLC model checking of AtomicSave.tla + fault/crash enumeration on the real save + TLC trace validation of every injected run",
+  text="TLC checks OldOrNew / FailKeepsOld / InvalidateOnlyIfReplaced / ShardNeverOverwrites on the design for every fault and crash position of 74 configurations (1-2 faults). Every effect of the real ir.save is then made to fail or the process killed at it, at the system-call boundary with strace -e inject and at Python level through proxies in the module globals of onnx_ir.external_data. Every such run is validated by TLC as a trace (effect order including the finally path, and the observed end state), and TLC evaluates the property formulas on the observed directory and tensor state.",
+  note="chunk-granular contents; single process crash (SIGKILL/_exit), no power-loss durability; failures after the replace and a missing destination are outside the statement (weaker reading); parallel schedules as produced by the OS; strace/ptrace, TLC, CPython trusted")
+
 _PENDING = "check not built yet in this round (specification planned in DESIGN.md §4); not claimed until its TLA+ model and binding exist"
-NOT_APPLICABLE = {p: _PENDING for p in ["C02", "C03", "C08", "C09", "C11", "C12", "C15", "C16", "C17", "C18"]}
+NOT_APPLICABLE = {p: _PENDING for p in ["C02", "C09", "C11", "C12", "C15", "C16", "C17", "C18"]}
